@@ -66,6 +66,7 @@ func NewExprCondition(expression string) (Condition, error) {
 		expr.AllowUndefinedVariables(),
 		expr.AsBool(),
 	}
+	options = append(options, sqlEqualityOptions()...)
 	// 注入 StreamSQL 内置函数，使 WHERE/HAVING/OVER-WHEN 等条件可调用 to_seconds/now/abs 等
 	options = append(options, functions.GetExprBridge().RegisterStreamSQLFunctionsToExpr()...)
 
